@@ -53,7 +53,8 @@ def direct_scenarios(ctx, n):
         else:             # staleness: fewer events than the count limit, nothing else ever arrives
             nev = rng.randint(1, 4)
             kinds = rng.choice([["r"] * nev, ["r"] * nev, ["c"] * nev, [rng.choice(["r", "c"]) for _ in range(nev)]])
-            sc = dict(workers=rng.choice([1, 2]), count=50, bytes=0, flush_ms=rng.choice([5, 30, 80]), sizes=[0 if x == "c" else 1 for x in kinds],
+            # (a flush time-out of 0 is a time-out like any other: whatever is in the batch is handed over at once)
+            sc = dict(workers=rng.choice([1, 2]), count=50, bytes=0, flush_ms=rng.choice([0, 5, 30, 80]), sizes=[0 if x == "c" else 1 for x in kinds],
                       order="fifo", stale=True)
         if sc["count"] == 0 and sc["bytes"] == 0:
             sc["count"] = 2
